@@ -8,7 +8,7 @@ import (
 	"github.com/6tail/lunar-go/calendar"
 )
 
-var c03Boundary = []int{1, 2, 3, 100, 1000, 1582, 1583, 1645, 1900, 2000, 2020, 2023, 2024, 3000, 3439, 4886, 9997, 9998}
+var c03Boundary = []int{1, 2, 3, 15, 16, 18, 19, 100, 1000, 1582, 1583, 1645, 1900, 2000, 2020, 2023, 2024, 3000, 3439, 4886, 9997, 9998}
 
 // instant of a float JD (UTC+8) as (jdn, millisecond of day)
 func projMs(jd float64) (int, int) {
@@ -207,7 +207,13 @@ func c03Years(c *ctx) {
 			if len(qs)%9 == 4 {
 				perturb(c, y)
 			}
-			pp, _ := try(func() { l = s.GetLunar() })
+			pp, _ := try(func() {
+				l = s.GetLunar()
+				if len(qs)%3 == 2 {
+					// the same lunar date built from its own numbers: the term queries are asked of that object
+					l = calendar.NewLunar(l.GetYear(), l.GetMonth(), l.GetDay(), s.GetHour(), s.GetMinute(), s.GetSecond())
+				}
+			})
 			if pp {
 				qs = append(qs, obj{"at": sol(s), "p": 1})
 				return
